@@ -77,9 +77,30 @@ def rand_gate_list(rng, n_qubits, n_gates, names=None, max_controls=2, var_p=0.2
     opposite or complementary-to-2pi/4pi angle), or the SAME NAME on the same qubit set with target
     and a control exchanged, or with one control dropped (sites that must NOT be merged/cancelled)."""
     out = []
+    echo_of = None
     for _ in range(n_gates):
-        if out and rng.random() < echo_p:
-            prev = dict(out[-1])
+        if out and echo_of is None and rng.random() < echo_p / 2:
+            # sandwich: a one-qubit gate on ONE qubit of the previous gate (a control, a target) or on an
+            # unrelated qubit, then (next iteration) an echo of the gate before it: passes that only look
+            # at part of a gate's qubits merge / cancel across the interposed gate
+            e = out[-1]
+            r1 = rng.random()
+            if e["control"] and r1 < 0.5:
+                q = rng.choice(e["control"])
+            elif r1 < 0.8:
+                q = rng.choice(e["target"])
+            else:
+                q = rng.randrange(n_qubits)
+            one = [x for x in ("X", "H", "Z", "S", "T", "RX", "RZ", "PHASE") if names is None or x in names]
+            if one:
+                nm = rng.choice(one)
+                out.append({"name": nm, "target": [q], "control": None,
+                            "k": rand_k(rng, edge_p) if nm in ("RX", "RZ", "PHASE") else None, "var": False})
+                echo_of = len(out) - 2
+                continue
+        if out and (echo_of is not None or rng.random() < echo_p):
+            prev = dict(out[echo_of if echo_of is not None else -1])
+            echo_of = None
             prev["target"] = list(prev["target"])
             prev["control"] = None if prev["control"] is None else list(prev["control"])
             r0 = rng.random()
